@@ -1,5 +1,6 @@
 """C01 — reader is memory-safe and terminates on arbitrary input."""
 from props._rda import Rda
+from props._read import Rd
 
 PROP = 'C01'
 PROPS_MODULES = ['LA.Props.C01']
@@ -14,4 +15,4 @@ MANIFEST = {
             '(ASan/UBSan) incl. fault scripts.',
     'note': 'Memory safety of the unmodelled format parsers and decompressors is exercised under sanitizers only.',
 }
-ENGINES = [Rda(faults=True, nbase=500)]
+ENGINES = [Rda(faults=True, nbase=500), Rd()]
